@@ -618,9 +618,18 @@ def build_item(repo, item, log):
         # field visibility is irrelevant inside the single-file unit: make every named field `pub`
         if m.group(1) == "struct":
             text = re.sub(r"(?m)^(\s+)(?!pub\b)(\w+)\s*:", r"\1pub \2:", text)
+        extra = ""
+        if item.get("serde_symmetric_check"):
+            # A-BINCODE's side condition, decided syntactically: the only serde field attribute whose Serialize and
+            # Deserialize sides agree for a non-self-describing format is `#[serde(default)]` on trailing data
+            attrs_found = re.findall(r"#\[serde\(([^\]]*)\)\]", text)
+            ok = all(lex.norm(a) == "default" for a in attrs_found)
+            extra = "pub spec const SERDE_SYMMETRIC_%s: bool = %s; // serde attributes found: %s\n" % (item["struct"], "true" if ok else "false", attrs_found)
+            text = re.sub(r"(?m)^\s*#\[serde\([^\]]*\)\]\s*\n", "", text)
+            log.add("R15", "serde field attributes of %s checked for symmetry and dropped from the mirror" % item["struct"], str(attrs_found), "SERDE_SYMMETRIC_%s = %s" % (item["struct"], ok))
         text = apply_rules(text, item.get("rules", []), log)
         where = "%s:%d" % (item["file"], lex.line_of(src, m.start(1)))
-        attrs = "".join("%s\n" % a for a in item.get("attrs", []))
+        attrs = extra + "".join("%s\n" % a for a in item.get("attrs", []))
         return dict(name=item["struct"], text="// ---- extracted from %s\n%spub %s\n" % (where, attrs, text), where=where,
                     raw_lines=text.count("\n") + 1, body=None, head=None, attrs=attrs, is_type=True)
     else:
